@@ -357,7 +357,9 @@ func main() {
 	}
 	ev.TEOF = now()
 	werr := cmd.Wait()
-	if rule.Mode == "delay" {
+	if rule.Mode == "delay" && rule.ExitMs > 0 {
+		// a process that has finished its output but lingers before exiting: downstream sees EOF now, the exit status later
+		out.Close()
 		sleep(rule.ExitMs)
 	}
 	code := 0
